@@ -114,9 +114,15 @@ Record elem := mkelem {
   a_date : option str;      (* office:date-value *)
   a_string : option str;    (* office:string-value *)
   a_time : option str;      (* office:time-value *)
-  etext : option str        (* Meta: element text (None when empty);  others: the text:p children joined by newline (None when there is none) *)
+  etext : option str;       (* Meta: element text (None when empty);  others: the text:p children joined by newline (None when there is none) *)
+  a_currency : option str;  (* office:currency *)
+  x_type : option str;      (* calcext:value-type *)
+  x_value : option str;     (* calcext:value *)
+  others : list (str * str) (* every other attribute of the element that is not a name / style / display / repetition attribute: (qualified name, value), sorted *)
 }.
-Definition empty_elem := mkelem None None None None None None None.
+Definition empty_elem := mkelem None None None None None None None None None None [].
+(* the seven fields the readers look at *)
+Definition core (e : elem) : elem := mkelem (vtype e) (a_bool e) (a_value e) (a_date e) (a_string e) (a_time e) (etext e) None None None [].
 
 Definition t_boolean : str := [98;111;111;108;101;97;110]%N.
 Definition t_float : str := [102;108;111;97;116]%N.
@@ -134,56 +140,67 @@ Definition xml_str (s : str) : bool := forallb xml_char s.
 Inductive result (A : Type) := Ok (a : A) | Err.
 Arguments Ok {A} a. Arguments Err {A}.
 
-(* ElementTyped.set_value_and_type(value) with value_type=None, text=None: the if / elif chain in source order.
-   Returns the element attributes and the text handed back to the caller. *)
+(* the element a writer produces: the payload s in the slot of its type; [calc]: set_value_and_type also writes
+   calcext:value-type (always) and calcext:value (numbers) *)
+Inductive slot := SBool | SValue | SDate | SString | STime.
+Definition in_slot (a b : slot) (s : str) : option str :=
+  match a, b with SBool, SBool | SValue, SValue | SDate, SDate | SString, SString | STime, STime => Some s | _, _ => None end.
+Definition build (calc : bool) (t : str) (sl : slot) (s : str) : elem :=
+  mkelem (Some t) (in_slot SBool sl s) (in_slot SValue sl s) (in_slot SDate sl s) (in_slot SString sl s) (in_slot STime sl s) None
+         None (if calc then Some t else None) (if calc then in_slot SValue sl s else None) [].
+
+(* the if / elif chain shared by the three writers is NOT shared in the code: each is written out in its own source order.
+   ElementTyped.set_value_and_type(value) with value_type=None, text=None.  Returns the attributes and the text handed back. *)
 Definition set_et (v : pyval) : result (elem * option str) :=
   match v with
   | VNone => Ok (empty_elem, None)
   | _ =>
     if isinstance_bool v then
-      let s := py_bool_encode v in Ok (mkelem (Some t_boolean) (Some s) None None None None None, Some s)
+      let s := py_bool_encode v in Ok (build true t_boolean SBool s, Some s)
     else if isinstance_int v || isinstance_float v || isinstance_Decimal v then
-      let s := py_str_num v in Ok (mkelem (Some t_float) None (Some s) None None None None, Some s)
+      let s := py_str_num v in Ok (build true t_float SValue s, Some s)
     else if isinstance_datetime v then
-      let s := py_datetime_encode v in Ok (mkelem (Some t_date) None None (Some s) None None None, Some s)
+      let s := py_datetime_encode v in Ok (build true t_date SDate s, Some s)
     else if isinstance_date v then
-      let s := py_date_encode v in Ok (mkelem (Some t_date) None None (Some s) None None None, Some s)
+      let s := py_date_encode v in Ok (build true t_date SDate s, Some s)
     else if isinstance_str v then
-      match v with VStr s => if xml_str s then Ok (mkelem (Some t_string) None None None (Some s) None None, Some s) else Err | _ => Err end
+      match v with VStr s => if xml_str s then Ok (build true t_string SString s, Some s) else Err | _ => Err end
     else if isinstance_timedelta v then
-      let s := py_dur_encode v in Ok (mkelem (Some t_time) None None None None (Some s) None, Some s)
+      let s := py_dur_encode v in Ok (build true t_time STime s, Some s)
     else Err
   end.
 
-(* Cell.value setter: its own chain (str, bool, float, Decimal, int, timedelta, datetime, date) *)
+(* Cell.value setter: its own chain (str, bool, float, Decimal, int, timedelta, datetime, date); every branch is a property
+   setter that starts with self.clear() *)
 Definition set_cellvalue (v : pyval) : result (elem * option str) :=
   match v with
   | VNone => Ok (empty_elem, None)
   | _ =>
     if isinstance_str v then
-      match v with VStr s => if xml_str s then Ok (mkelem (Some t_string) None None None (Some s) None None, Some s) else Err | _ => Err end
+      match v with VStr s => if xml_str s then Ok (build false t_string SString s, Some s) else Err | _ => Err end
     else if isinstance_bool v then
-      let s := py_bool_encode v in Ok (mkelem (Some t_boolean) (Some s) None None None None None, Some s)
+      let s := py_bool_encode v in Ok (build false t_boolean SBool s, Some s)
     else if isinstance_float v then
-      let s := py_str_num v in Ok (mkelem (Some t_float) None (Some s) None None None None, Some s)
+      let s := py_str_num v in Ok (build false t_float SValue s, Some s)
     else if isinstance_Decimal v then
-      let s := py_str_num v in Ok (mkelem (Some t_float) None (Some s) None None None None, Some s)
+      let s := py_str_num v in Ok (build false t_float SValue s, Some s)
     else if isinstance_int v then
-      let s := py_str_num v in Ok (mkelem (Some t_float) None (Some s) None None None None, Some s)
+      let s := py_str_num v in Ok (build false t_float SValue s, Some s)
     else if isinstance_timedelta v then
-      let s := py_dur_encode v in Ok (mkelem (Some t_time) None None None None (Some s) None, Some s)
+      let s := py_dur_encode v in Ok (build false t_time STime s, Some s)
     else if isinstance_datetime v then
-      let s := py_datetime_encode v in Ok (mkelem (Some t_date) None None (Some s) None None None, Some s)
+      let s := py_datetime_encode v in Ok (build false t_date SDate s, Some s)
     else if isinstance_date v then
-      let s := py_date_encode v in Ok (mkelem (Some t_date) None None (Some s) None None None, Some s)
+      let s := py_date_encode v in Ok (build false t_date SDate s, Some s)
     else Err
   end.
 
 (* Meta.set_user_defined_metadata: value-type attribute + element text.  [date_first] = the pinned order
    (isinstance(value, date) tested before datetime, F12); false = the repaired order. *)
 Definition meta_text (s : str) : option str := match s with [] => None | _ => Some s end.
+Definition build_meta (t s : str) : elem := mkelem (Some t) None None None None None (meta_text s) None None None [].
 Definition set_meta_gen (date_first : bool) (v : pyval) : result (elem * option str) :=
-  let mk t s := Ok (mkelem (Some t) None None None None None (meta_text s), Some s) in
+  let mk t s := Ok (build_meta t s, Some s) in
   if isinstance_bool v then mk t_boolean (py_bool_encode v)
   else if isinstance_int v || isinstance_float v || isinstance_Decimal v then mk t_float (py_str_num v)
   else if date_first then
@@ -279,14 +296,46 @@ Definition get_meta (e : elem) : result pyval :=
   else Err.
 
 (* ------------------------------------------------------------------ carriers *)
-Inductive setk := SetET | SetCellValue | SetMeta.
+(* SetET: set_value_and_type on an element that was cleared just before (Cell(v), Cell.set_value, Row/Table.set_value,
+   VarSet / UserFieldDecl (.set_value), UserDefined);  SetETRaw: set_value_and_type called on an element as it is;
+   SetCellValue: cell.value = v;  SetMeta: Meta.set_user_defined_metadata on a (possibly existing) name *)
+Inductive setk := SetET | SetCellValue | SetMeta | SetETRaw.
 Inductive getk := GetET | GetCellValue | GetMeta.
+(* writing on a fresh carrier *)
 Definition model_set (k : setk) (v : pyval) : result elem :=
-  match (match k with SetET => set_et v | SetCellValue => set_cellvalue v | SetMeta => set_meta v end) with
+  match (match k with SetET | SetETRaw => set_et v | SetCellValue => set_cellvalue v | SetMeta => set_meta v end) with
   | Ok (e, _) => Ok e | Err => Err end.
+
+(* qualified names of the attributes set_value_and_type deletes before writing, among those kept in [others] *)
+Definition n_formula : str := [116;97;98;108;101;58;102;111;114;109;117;108;97]%N.                      (* table:formula *)
+Definition n_loext_type : str := [108;111;101;120;116;58;118;97;108;117;101;45;116;121;112;101]%N.      (* loext:value-type *)
+Definition removed_other (n : str) : bool := str_eqb n n_formula || str_eqb n n_loext_type.
+(* writing on a carrier in state [prev] (None = fresh).  The code reads the previous state in two places only:
+   set_value_and_type deletes a fixed list of attributes and leaves the others ([stale_xvalue]: the pinned list lacks
+   calcext:value, F72); Meta.set_user_defined_metadata looks the name up and re-uses the element it finds. *)
+Definition set_on_gen (stale_xvalue : bool) (k : setk) (prev : option elem) (v : pyval) : result elem :=
+  match prev with
+  | None => model_set k v
+  | Some p =>
+    match k with
+    | SetET | SetCellValue => model_set k v                     (* self.clear() first *)
+    | SetETRaw =>
+        match model_set k v with
+        | Ok e => Ok (mkelem (vtype e) (a_bool e) (a_value e) (a_date e) (a_string e) (a_time e) (etext p) (a_currency e) (x_type e)
+                             (match x_value e with Some s => Some s | None => if stale_xvalue then x_value p else None end)
+                             (filter (fun nv => negb (removed_other (fst nv))) (others p)))
+        | Err => Err end
+    | SetMeta =>
+        match model_set k v with
+        | Ok e => Ok (mkelem (vtype e) (a_bool p) (a_value p) (a_date p) (a_string p) (a_time p) (etext e) (a_currency p) (x_type p) (x_value p) (others p))
+        | Err => Err end
+    end
+  end.
+Definition model_set_on := set_on_gen false.
+Definition model_set_on_pinned := set_on_gen true.
+Definition is_meta (k : setk) : bool := match k with SetMeta => true | _ => false end.
 Definition model_get (k : getk) (e : elem) : result pyval :=
   match k with GetET => get_et e | GetCellValue => get_cellvalue e | GetMeta => get_meta e end.
-Definition is_meta (k : setk) : bool := match k with SetMeta => true | _ => false end.
 (* which reader goes with which writer in the public carriers:
    Cell(v) / set_value, Row.set_value, Table.set_value, VarSet, UserFieldDecl, UserDefined : SetET then GetET (Cell also GetCellValue);
    cell.value = v : SetCellValue then GetCellValue (also GetET);  Meta : SetMeta then GetMeta *)
